@@ -197,7 +197,7 @@ def rule_fresh(ctx):
                 ctx.fail("C17.FRESH", dflt, f"{name}: mutable default argument shared by all sessions", construct=f"{name}:mutable default")
     ctx.floor("C17.FRESH", 8)
     # any function of the server-side modules with a mutable default argument that it mutates, returns or stores: one object for all sessions
-    for mod in ("server.py", "pathio.py", "common.py"):
+    for mod in ("server.py", "pathio.py", "common.py", "client.py"):
         for fn in [f for f in ast.walk(p.trees[mod]) if isinstance(f, FuncT)]:
             a = fn.args
             pairs = list(zip(reversed(a.posonlyargs + a.args), reversed(a.defaults))) + [(x, d_) for x, d_ in zip(a.kwonlyargs, a.kw_defaults) if d_ is not None]
@@ -209,6 +209,10 @@ def rule_fresh(ctx):
                               for c in walk_no_nested(fn)) or any(isinstance(t, ast.Subscript) and isinstance(t.value, ast.Name) and t.value.id == arg.arg
                                                                   for n_ in walk_no_nested(fn) for t in (assign_targets(n_) if isinstance(n_, (ast.Assign, ast.AugAssign, ast.Delete)) else []))
                 escapes = any(isinstance(r, ast.Return) and isinstance(r.value, ast.Name) and r.value.id == arg.arg for r in walk_no_nested(fn))
+                if mod == "client.py":
+                    # the client keeps its arguments on the instance: a literal container default stored there is one object for every client of the process
+                    escapes = escapes or any(isinstance(n_, ast.Assign) and isinstance(n_.value, ast.Name) and n_.value.id == arg.arg and isinstance(n_.targets[0], ast.Attribute)
+                                             for n_ in walk_no_nested(fn))
                 ctx.ob("C17.FRESH", fn, f"{p.qualname(fn)}: mutable default `{arg.arg}` is neither mutated nor returned", not (mutated or escapes),
                        f"{p.qualname(fn)}: the mutable default argument `{arg.arg}` is mutated/returned: it is ONE object shared by every call of every session "
                        "(values written for one session are seen - and overwritten - by another across a suspension point)", construct=f"{p.qualname(fn)}:mutable default {arg.arg}")
@@ -261,10 +265,20 @@ def rule_state(ctx):
     rets = [r for r in walk_no_nested(call) if isinstance(r, ast.Return)]
     inst = [n for n in walk_no_nested(call) if isinstance(n, ast.Assign) and isinstance(n.value, ast.Call) and src(n.value.func) == "self.factory"]
     ok = len(inst) == 1 and any(k.arg == "state" and src(k.value) == "self.state" for k in inst[0].value.keywords) and rets and src(rets[-1].value) == src(inst[0].targets[0])
+    # the object handed out is the one just built: the returned name has no other definition, and the construction is not conditional
+    if ok and isinstance(inst[0].targets[0], ast.Name):
+        ok = len(local_defs(call, inst[0].targets[0].id)) == 1 and not all_guards(p, inst[0], call)
     ctx.ob("C17.STATE", call, "the nursery builds a new backend per call, passing only the shared state", bool(ok), "PathIONursery does not build a fresh backend per call", construct="nursery:call")
-    stores = [n for n in walk_no_nested(call) if isinstance(n, ast.Assign) and isinstance(n.targets[0], ast.Attribute) and src(n.targets[0].value) == "self"]
-    ok = all(n.targets[0].attr == "state" for n in stores)
-    ctx.ob("C17.STATE", call, "the nursery remembers nothing but `state`", ok, f"PathIONursery caches {[n.targets[0].attr for n in stores]}", construct="nursery:stores")
+    def self_attr(t):
+        while isinstance(t, ast.Subscript):
+            t = t.value
+        return t.attr if isinstance(t, ast.Attribute) and src(t.value) == "self" else None
+    stores = [(n, self_attr(t)) for n in walk_no_nested(call) if isinstance(n, (ast.Assign, ast.AugAssign)) for t in assign_targets(n) if self_attr(t) is not None]
+    stores += [(c, c.func.value.attr) for c in walk_no_nested(call) if isinstance(c, ast.Call) and isinstance(c.func, ast.Attribute) and c.func.attr in MUTATORS
+               and isinstance(c.func.value, ast.Attribute) and src(c.func.value.value) == "self"]
+    ok = all(a == "state" for n, a in stores)
+    ctx.ob("C17.STATE", call, "the nursery remembers nothing but `state`", ok, f"PathIONursery caches {sorted({a for n, a in stores})}: sessions get each other's backend object",
+           construct="nursery:stores")
     mi = p.method("MemoryPathIO", "__init__")
     ok = any(isinstance(n, ast.Assign) and src(n.targets[0]) == "self.cwd" for n in walk_no_nested(mi))
     ctx.ob("C17.STATE", mi, "MemoryPathIO.cwd is an instance attribute", ok, "MemoryPathIO.cwd is not per instance", construct="memory:cwd")
@@ -296,11 +310,45 @@ def rule_lock(ctx):
                        f"{q}: the process-wide lock `{src(held[0].context_expr)}` is held across `{src(susp[0])[:50] if susp else ''}`: when a second session reaches the same lock "
                        "while this one is suspended, the event-loop thread blocks on it and every session of the server freezes", construct=f"lock:{q}")
     ctx.note(f"C17.LOCK: {n} lock-holding with-statements in coroutines")
+    # a lock taken by hand is given back on every way out: release() in a `finally` (an exception thrown into the generator at `yield` included)
+    for q, fn in p.functions.items():
+        for w in walk_no_nested(fn):
+            if isinstance(w, ast.With) and any(isinstance(it.context_expr, ast.Name) and it.context_expr.id in lock_ctx for it in w.items):
+                ctx.ob("C17.LOCK", w, f"{q}: the lock is taken with a `with` statement (released on every way out)", True)
+        for c in walk_no_nested(fn):
+            if isinstance(c, ast.Call) and is_method_call(c, "acquire") and isinstance(c.func.value, ast.Name) and c.func.value.id in lock_ctx:
+                nm = c.func.value.id
+                fin = [x for t in walk_no_nested(fn) if isinstance(t, ast.Try) for s_ in t.finalbody for x in ast.walk(s_)
+                       if isinstance(x, ast.Call) and is_method_call(x, "release") and src(x.func.value) == nm]
+                ctx.ob("C17.LOCK", c, f"{q}: `{nm}.acquire()` is paired with a release() in a finally", bool(fin),
+                       f"{q}: `{nm}.acquire()` has no `{nm}.release()` in a `finally`: an exception inside (a listing line with a bad date) leaves the process-wide lock held - "
+                       "the next caller, in any session of the process, blocks the event loop for ever", construct=f"lock:{q}:release not in finally")
 
 
 # classes whose instances belong to one session: a task kept on one of them is that session's own
 PER_SESSION_CLASSES = {"Connection": "the session object", "StreamIO": "one wrapper per socket", "ThrottleStreamIO": "one wrapper per socket",
                        "AsyncPathIOContext": "one per opened file"}
+
+
+def rule_class_state(ctx):
+    p = ctx.p
+    ctx.rule("C17.CLASSATTR", "nothing is parked on a class at run time: no store through `self.__class__` / `type(self)` / `cls` of an instance method (a class attribute is one "
+                              "slot for every session and every client of the process)")
+    n = 0
+    for mod, tree in p.trees.items():
+        for fn in [f_ for f_ in ast.walk(tree) if isinstance(f_, FuncT)]:
+            klass = {a.targets[0].id for a in walk_no_nested(fn) if isinstance(a, ast.Assign) and isinstance(a.targets[0], ast.Name)
+                     and (src(a.value) in ("self.__class__", "type(self)"))}
+            for st in walk_no_nested(fn):
+                for t in (assign_targets(st) if isinstance(st, (ast.Assign, ast.AugAssign)) else []):
+                    base = t
+                    while isinstance(base, ast.Subscript):
+                        base = base.value
+                    if isinstance(base, ast.Attribute) and (src(base.value) in ("self.__class__", "type(self)") or (isinstance(base.value, ast.Name) and base.value.id in klass)):
+                        n += 1
+                        ctx.fail("C17.CLASSATTR", st, f"{p.qualname(fn)}: `{src(t)[:40]}` stores run-time state on the class: every instance (every session / client) shares that slot",
+                                 construct=f"classattr:{p.qualname(fn)}:{base.attr}")
+    ctx.ob("C17.CLASSATTR", p.trees["common.py"], f"functions of {len(p.trees)} modules scanned for stores through `self.__class__` / `type(self)`", True)
 
 
 def rule_task(ctx):
@@ -338,7 +386,15 @@ def rule_task(ctx):
                 while q is not None and not isinstance(q, ast.ClassDef):
                     q = p.parent.get(q)
                 cname = q.name if q is not None else None
-                session_names = {"connection"}
+                # the session object: the dispatcher's `Connection(...)` variable, or the session parameter of the command handler this code belongs to
+                session_names = {p.session_var()}
+                outer = fn
+                while p.enclosing_function(outer) is not None:
+                    outer = p.enclosing_function(outer)
+                if cname == "Server" and len(outer.args.args) >= 3:
+                    session_names.add(outer.args.args[1].arg)
+                    if fn is not outer and len(fn.args.args) >= 3:
+                        session_names.add(fn.args.args[1].arg)       # a nested worker takes (self, <session>, rest) again
                 ok = rn in session_names or (rn == "self" and cname in PER_SESSION_CLASSES)
                 n += 1
                 ctx.ob("C17.TASK", x, f"{p.qualname(fn)}: task kept in `{src(tgt)[:40]}` (per session)", ok,
@@ -356,4 +412,4 @@ def rule_borrowed(ctx):
     ctx.borrow(rule_token, {"C11.TOKEN": "C17.PORTS"})
 
 
-RULES = [rule_write, rule_fresh, rule_closure, rule_state, rule_lock, rule_task, rule_borrowed]
+RULES = [rule_write, rule_fresh, rule_closure, rule_state, rule_lock, rule_task, rule_class_state, rule_borrowed]
